@@ -25,11 +25,13 @@ def main():
     run_tests = False
     tier = 'quick'
     only = None
+    save = False
     while args and args[0].startswith('--'):
         a = args.pop(0)
         if a == '--tests': run_tests = True
         elif a == '--tier': tier = args.pop(0)
         elif a == '--only': only = set(args.pop(0).split(','))
+        elif a == '--save-regressions': save = True
     path = args[0] if args else f'{VERIF}/sensitivity/mutants.json'
     muts = json.load(open(path))
     if sh(f'git -C {REPO} status --porcelain').stdout.strip():
@@ -64,6 +66,14 @@ def main():
                 sig = [l.strip() for l in r.stdout.splitlines() if l.strip().startswith('signature:')]
                 rec['checks'][cid] = {'exit': r.returncode, 'wall_s': round(time.time() - t0, 1), 'signature': sig[:1], 'tier': tier}
                 print(f'{name:40s} {cid} exit={r.returncode} {sig[:1]} ({time.time()-t0:.1f}s)', flush=True)
+                if save and r.returncode == 1:
+                    for l in r.stdout.splitlines():
+                        if l.startswith('VIOLATION') and 'replay=' in l:
+                            src = l.split('replay=')[1].strip()
+                            if src.startswith(OUT) and os.path.exists(src):
+                                dst = f'{VERIF}/regressions/{cid}'
+                                os.makedirs(dst, exist_ok=True)
+                                shutil.copy(src, f'{dst}/{name}.json')
             results[name] = rec
         finally:
             restore()
